@@ -27,10 +27,11 @@ import (
 // return must be that value.
 
 type c12val struct {
-	k int // 0 unknown, 1 int, 2 float, 3 bool
+	k int // 0 unknown, 1 int, 2 float, 3 bool, 4 string
 	i int64
 	f float64
 	b bool
+	s string
 }
 
 func (v c12val) String() string {
@@ -41,6 +42,8 @@ func (v c12val) String() string {
 		return fmt.Sprint(v.f)
 	case 3:
 		return fmt.Sprint(v.b)
+	case 4:
+		return fmt.Sprintf("%q", v.s)
 	}
 	return "a value that could not be evaluated"
 }
@@ -65,6 +68,9 @@ type c12interp struct {
 	f        *ssa.Function
 	isReply  func(ssa.Value) bool
 	reply    int64
+	replyVal *c12val            // a reply that is not an integer (round 11: the string reply of PING)
+	stopAt   ssa.Instruction    // a path ends (without a value) when it reaches this instruction (round 11: the paths around the command)
+	onError  bool               // walk the paths on which the command's error is non-nil instead (round 11)
 	errFails map[core.Edge]bool // edges establishing "the command's error is non-nil"
 	errHolds map[core.Edge]bool // edges establishing "the command's error is nil"
 	sinkCell *ssa.Alloc         // closure form: the named-result cell
@@ -77,6 +83,9 @@ type c12interp struct {
 
 func (it *c12interp) eval(v ssa.Value, env map[ssa.Value]c12val) c12val {
 	if it.isReply(v) {
+		if it.replyVal != nil {
+			return *it.replyVal
+		}
 		return c12val{k: 1, i: it.reply}
 	}
 	if r, ok := env[v]; ok {
@@ -124,6 +133,8 @@ func (it *c12interp) eval(v ssa.Value, env map[ssa.Value]c12val) c12val {
 			return c12val{k: 2, f: f}
 		case constant.Bool:
 			return c12val{k: 3, b: constant.BoolVal(x.Value)}
+		case constant.String:
+			return c12val{k: 4, s: constant.StringVal(x.Value)}
 		}
 		return c12val{}
 	case *ssa.ChangeType:
@@ -166,6 +177,23 @@ func (it *c12interp) eval(v ssa.Value, env map[ssa.Value]c12val) c12val {
 		return c12val{}
 	case *ssa.BinOp:
 		a, b := it.eval(x.X, env), it.eval(x.Y, env)
+		if a.k == 4 && b.k == 4 {
+			switch x.Op {
+			case token.EQL:
+				return c12val{k: 3, b: a.s == b.s}
+			case token.NEQ:
+				return c12val{k: 3, b: a.s != b.s}
+			case token.LSS:
+				return c12val{k: 3, b: a.s < b.s}
+			case token.LEQ:
+				return c12val{k: 3, b: a.s <= b.s}
+			case token.GTR:
+				return c12val{k: 3, b: a.s > b.s}
+			case token.GEQ:
+				return c12val{k: 3, b: a.s >= b.s}
+			}
+			return c12val{}
+		}
 		if a.k == 3 && b.k == 3 {
 			switch x.Op {
 			case token.EQL:
@@ -273,6 +301,9 @@ func (it *c12interp) walk(b *ssa.BasicBlock, idx int, env map[ssa.Value]c12val, 
 		}
 		var next []*ssa.BasicBlock
 		for i := idx; i < len(b.Instrs); i++ {
+			if it.stopAt != nil && b.Instrs[i] == it.stopAt {
+				return
+			}
 			switch in := b.Instrs[i].(type) {
 			case *ssa.Store:
 				if it.sinkCell != nil && it.x.w.resultCell(in.Addr) == it.sinkCell {
@@ -291,12 +322,16 @@ func (it *c12interp) walk(b *ssa.BasicBlock, idx int, env map[ssa.Value]c12val, 
 				return
 			case *ssa.If:
 				c := it.eval(in.Cond, env)
+				skip, keep := it.errFails, it.errHolds
+				if it.onError {
+					skip, keep = it.errHolds, it.errFails
+				}
 				for si, s := range b.Succs {
 					e := core.Edge{From: b, To: s}
-					if it.errFails[e] {
-						continue // the command failed: no reply to convert
+					if skip[e] {
+						continue // the command failed: no reply to convert (onError: it succeeded)
 					}
-					if c.k == 3 && !it.errHolds[e] && ((c.b && si == 1) || (!c.b && si == 0)) {
+					if c.k == 3 && !keep[e] && ((c.b && si == 1) || (!c.b && si == 0)) {
 						continue
 					}
 					next = append(next, s)
